@@ -30,6 +30,11 @@ CLAIMED = {
         "note": "Dependencies are those dask._task_spec reports after convert_legacy_graph.",
         "technique": "property-based testing: random programs, validity predicate over the task graph",
     },
+    "C12": {
+        "text": "Hypothesis-generated (array, chunking, index) cases covering every listed index form incl. dask-array indices, .vindex, .blocks and unknown-chunk sources, compared with NumPy indexing of the same data; 'raises' classification: NumPy IndexError => dask_array must raise. " + EXPL,
+        "note": "NumPy indexing is the reference; two fancy indices, dask-array indices combined with other elements and arrays with unknown chunk sizes may be refused with any exception (a value that is returned must still be NumPy's); regions of four listed open findings are excluded and counted.",
+        "technique": "property-based testing: random indices vs NumPy reference (differential) with a raises-classification rule",
+    },
     "C13": {
         "text": "Exhaustive enumeration of all slices/ints/chunk compositions for n<=5 (quick) / n<=7 (thorough) plus Hypothesis-drawn larger axes, each helper compared with brute force on range(n). " + EXPL,
         "note": "Trusts Python's own slice semantics on list(range(n)) as the reference; helper input domains are those of the callers (normalised indices; unit-step slices for _compose_slices/_compute_sliced_chunks).",
